@@ -2098,6 +2098,10 @@ static int dfs_copy(vnaproperty_t **destination, const vnaproperty_t *source)
 	if ((keys = vnaproperty_keys(source, ".")) == NULL) {
 	    return -1;
 	}
+	if (vnaproperty_set_subtree(destination, "{}") == NULL) {
+	    free((void *)keys);
+	    return -1;
+	}
 	for (const char **cpp = keys; *cpp != NULL; ++cpp) {
 	    char *key = NULL;
 	    vnaproperty_t **new_destination, *new_source;
@@ -2127,6 +2131,9 @@ static int dfs_copy(vnaproperty_t **destination, const vnaproperty_t *source)
 
     case VNAPROPERTY_LIST:
 	if ((count = vnaproperty_count(source, ".")) == -1) {
+	    return -1;
+	}
+	if (vnaproperty_set_subtree(destination, "[]") == NULL) {
 	    return -1;
 	}
 	for (int i = 0; i < count; ++i) {
